@@ -39,6 +39,7 @@ type Snapshot struct {
 	id          uint64
 	ts          uint64
 	root        node
+	minOff      int64 // lowest nodes-log offset reachable from root when the snapshot was taken
 	readers     map[int]io.Closer
 	maxReaderID int
 	closed      bool
